@@ -25,6 +25,9 @@ var (
 	// ErrMalformedMessage is returned for payloads that decode to no message
 	// (e.g. JSON null) or that carry no swap id.
 	ErrMalformedMessage = errors.New("malformed peerswap message")
+	// ErrSwapIdInUse is returned for a swap request that reuses the id of a
+	// swap this node already knows.
+	ErrSwapIdInUse = errors.New("swap id is already in use")
 )
 
 type ErrMinimumSwapSize uint64
@@ -568,6 +571,12 @@ func (s *SwapService) estimateMaximumSwapAmountSat(chain string) (uint64, error)
 
 // OnSwapInRequestReceived creates a new swap-in process and sends the event to the swap statemachine
 func (s *SwapService) OnSwapInRequestReceived(swapId *SwapId, peerId string, message *SwapInRequestMessage) error {
+	// A request must not reuse the id of a swap we already know. Such a request
+	// (a replay, a duplicate or an attack) is dropped without touching the
+	// existing swap and without telling the peer to cancel that id.
+	if s.swapIdKnown(swapId) {
+		return ErrSwapIdInUse
+	}
 	var (
 		premiumValue int64
 		err          error
@@ -679,6 +688,12 @@ func (s *SwapService) OnSwapInRequestReceived(swapId *SwapId, peerId string, mes
 
 // OnSwapOutRequestReceived creates a new swap-out process and sends the event to the swap statemachine
 func (s *SwapService) OnSwapOutRequestReceived(swapId *SwapId, peerId string, message *SwapOutRequestMessage) error {
+	// A request must not reuse the id of a swap we already know. Such a request
+	// (a replay, a duplicate or an attack) is dropped without touching the
+	// existing swap and without telling the peer to cancel that id.
+	if s.swapIdKnown(swapId) {
+		return ErrSwapIdInUse
+	}
 	var (
 		premiumValue int64
 		err          error
@@ -980,12 +995,29 @@ func (s *SwapService) RemoveActiveSwap(swapId string) {
 	delete(s.activeSwaps, swapId)
 }
 
+// swapIdKnown reports whether a swap with this id is already known to the
+// node, either as an active swap or as a stored (active, finished or not yet
+// recovered) one. A failing store lookup counts as known: better to refuse a
+// request than to overwrite an existing swap.
+func (s *SwapService) swapIdKnown(swapId *SwapId) bool {
+	if _, err := s.GetActiveSwap(swapId.String()); err == nil {
+		return true
+	}
+	_, err := s.swapServices.swapStore.GetData(swapId.String())
+	return !errors.Is(err, ErrDataNotAvailable)
+}
+
 // lockSwap locks in a swap. This function ensures that we only have one active
 // swap on a channel as required by the protocol.
 // Returns an error if the swap is already locked.
 func (s *SwapService) lockSwap(swapId, channelId string, fsm *SwapStateMachine) error {
 	s.Lock()
 	defer s.Unlock()
+
+	// A swap id identifies exactly one swap.
+	if _, ok := s.activeSwaps[swapId]; ok {
+		return ErrSwapIdInUse
+	}
 
 	// Check if we already have an active swap on the same channel
 	for id, swap := range s.activeSwaps {
